@@ -29,7 +29,12 @@ func (env *Zlisp) ImportPackageBuilder() {
 	env.ImportMinimalBuilder()
 	env.AddBuilder("infixExpand", InfixBuilder)
 	env.AddBuilder("infix", InfixBuilder)
-	env.AddBuilder("sys", SystemBuilder)
+	if !env.sandboxed {
+		// these reach the outside world: sys runs a shell command,
+		// import reads and evaluates a file.
+		env.AddBuilder("sys", SystemBuilder)
+		env.AddBuilder("import", ImportPackageBuilder)
+	}
 	env.AddBuilder("struct", StructBuilder)
 	env.AddBuilder("func", FuncBuilder)
 	env.AddBuilder("method", FuncBuilder)
@@ -39,8 +44,6 @@ func (env *Zlisp) ImportPackageBuilder() {
 	env.AddBuilder("var", VarBuilder)
 	env.AddBuilder("expectError", ExpectErrorBuilder)
 	//	env.AddBuilder("&", AddressOfBuilder)
-
-	env.AddBuilder("import", ImportPackageBuilder)
 
 	env.AddFunction("sliceOf", SliceOfFunction)
 	env.AddFunction("ptr", PointerToFunction)
